@@ -1285,10 +1285,8 @@ class VM:
 
         if isinstance(obj, bool):
             # Boolean methods (a boolean is not a number)
-            if key_str == "toString":
-                return lambda *args: "true" if obj else "false"
-            if key_str == "valueOf":
-                return lambda *args: obj
+            if key_str in ("toString", "valueOf"):
+                return self._make_boolean_method(obj, key_str)
             return UNDEFINED
 
         if isinstance(obj, (int, float)):
@@ -1941,6 +1939,20 @@ class VM:
             "TypedArray",
             method,
             lambda v: isinstance(v, JSTypedArray),
+        )
+
+    def _make_boolean_method(self, b: bool, method: str) -> Any:
+        """Create a bound boolean method."""
+        methods = {
+            "toString": lambda *args: "true" if b else "false",
+            "valueOf": lambda *args: b,
+        }
+        return self._for_receiver(
+            methods.get(method, lambda *args: UNDEFINED),
+            self._make_boolean_method,
+            "Boolean",
+            method,
+            lambda v: isinstance(v, bool),
         )
 
     def _make_number_method(self, n: float, method: str) -> Any:
